@@ -186,3 +186,6 @@ def run(ctx):
     from .C03 import r3_4
     r10_2(ctx)
     r3_4(ctx)
+    # a component that cannot be placed keeps its facility task READY for ever: location and contents are reset together
+    from ..initflags import group_rule
+    group_rule(ctx, "R13.10", "placement", "a workplace keeps listing components that no longer report being there: their space is never given back")
